@@ -73,8 +73,11 @@ func (e *c15ex) Exec(op string) string {
 		defer func() { wd.ACL.ByKeys = map[string]*simpeer.ACLEntry{} }()
 		withSender := fn == "poke" || fn == "whoAmIQ"
 		args := []string{script}
-		if fn == "whoAmIQ" {
+		if fn == "whoAmIQ" || fn == "touch" {
 			args = nil
+		}
+		if fn == "touch" && script == "extra" {
+			args = []string{"surplus"}
 		}
 		if withSender {
 			args = e.c.Signed(u, fn, args...)
@@ -84,6 +87,48 @@ func (e *c15ex) Exec(op string) string {
 		case "direct":
 			r := e.c.Invoke(wd.Client.Creator, simpeer.NewTxID(), fn, args...)
 			return effectsOf(r.Stub, "")
+		case "taskmix1", "taskmix2":
+			// the query shares one task list with a transaction that legitimately writes the key "txk";
+			// whatever else the envelope writes (besides that key, the two senders' nonce records and
+			// the executeTasks event) comes from the query
+			txTask := &fpb.Task{Id: simpeer.NewTxID(), Method: "script", Args: e.c.Signed(wd.Users[2], "script", "put:txk:1")}
+			qTask := &fpb.Task{Id: simpeer.NewTxID(), Method: fn, Args: args}
+			tasks := []*fpb.Task{txTask, qTask}
+			if route == "taskmix2" {
+				tasks = []*fpb.Task{qTask, txTask}
+			}
+			data, _ := proto.Marshal(&fpb.ExecuteTasksRequest{Tasks: tasks})
+			r := e.c.Invoke(wd.Client.Creator, simpeer.NewTxID(), "executeTasks", string(data))
+			var parts []string
+			for _, w := range r.Stub.WriteSet() {
+				if w.Key == "txk" || w.Key == "\x002a\x00"+wd.Users[2].Addr+"\x00" {
+					continue
+				}
+				parts = append(parts, "w="+strings.ReplaceAll(strings.ReplaceAll(w.Key, "\x00", "|"), " ", "_"))
+			}
+			var vk []string
+			for k := range r.Stub.VPWrites {
+				vk = append(vk, "vp="+k)
+			}
+			sort.Strings(vk)
+			parts = append(parts, vk...)
+			for _, p := range r.Stub.PrivWrites {
+				parts = append(parts, "p="+strings.ReplaceAll(p, " ", "/"))
+			}
+			if r.OK() && r.Stub.Event != nil {
+				ev := &fpb.BatchEvent{}
+				if proto.Unmarshal(r.Stub.Event.Payload, ev) == nil {
+					for i, x := range ev.Events {
+						if tasks[i] == qTask && len(x.Events) > 0 {
+							parts = append(parts, "e="+x.Events[0].GetName())
+						}
+					}
+				}
+			}
+			if len(parts) == 0 {
+				return "clean"
+			}
+			return "dirty:" + strings.Join(parts, ",")
 		case "task":
 			data, _ := proto.Marshal(&fpb.ExecuteTasksRequest{Tasks: []*fpb.Task{{Id: simpeer.NewTxID(), Method: fn, Args: args}}})
 			r := e.c.Invoke(wd.Client.Creator, simpeer.NewTxID(), "executeTasks", string(data))
@@ -160,6 +205,19 @@ func genC15(c *Cfg, emit func([]string)) {
 		}
 		add(fmt.Sprintf("q %s whoAmIQ - 1", route))
 		add(fmt.Sprintf("q %s whoAmIQ - 0", route))
+		// a query without any parameter (body = every kind of write), also with a surplus argument
+		add(fmt.Sprintf("q %s touch - 0", route))
+		add(fmt.Sprintf("q %s touch extra 0", route))
+	}
+	// a query in one task list with a transaction, in both orders
+	for _, route := range []string{"taskmix1", "taskmix2"} {
+		for _, acl := range []string{"0", "1"} {
+			for _, s := range steps {
+				add(fmt.Sprintf("q %s poke %s %s", route, s, acl))
+			}
+			add(fmt.Sprintf("q %s poke %s %s", route, strings.Join(steps, ";"), acl))
+			add(fmt.Sprintf("q %s whoAmIQ - %s", route, acl))
+		}
 	}
 	// every Query* function of the base contract and base token, valid and invalid arguments
 	_, info := methodTable()
@@ -193,6 +251,6 @@ func genC15(c *Cfg, emit func([]string)) {
 		}
 	}
 	emit(h)
-	c.Rule = fmt.Sprintf("%d query invocations: scripted query bodies with and without a sender parameter issuing every mutating stub call (put, put-empty, delete, event, validation parameter, private put/delete/purge/validation) alone, combined, and before a failure or panic, on both routes (direct, task execution), with an ACL answer that does / does not report changed keys; plus every Query* function of base contract and base token (%d functions) with address-shaped, numeric, junk and missing arguments. Observed: write-set, event, validation parameters and private-data mutations of the simulated transaction. non-trivial = every history; distinct = sha256", count, len(fns))
+	c.Rule = fmt.Sprintf("%d query invocations: scripted query bodies with and without a sender parameter issuing every mutating stub call (put, put-empty, delete, event, validation parameter, private put/delete/purge/validation) alone, combined, and before a failure or panic, on both routes (direct, task execution) and in one task list with a transaction (both orders), a query without any parameter, with an ACL answer that does / does not report changed keys; plus every Query* function of base contract and base token (%d functions) with address-shaped, numeric, junk and missing arguments. Observed: write-set, event, validation parameters and private-data mutations of the simulated transaction. non-trivial = every history; distinct = sha256", count, len(fns))
 	c.Extra = map[string]any{"invocations": count, "library_queries": len(fns)}
 }
